@@ -48,7 +48,7 @@ def check(ctx):
     check_single_links(ctx, P, (None,), rule_of=lambda r: RULE_MAP.get(r, r))
     for sub in (_check_prepad_and_trim, _check_open_edges):
         try:
-            sub(ctx, P, fi, rule="R03.2")
+            sub(ctx, P, fi, rule="R03.2", **({"with_vector": False} if sub is _check_prepad_and_trim else {}))
         except Unmodelled as e:  # a lineage the normal form cannot read: no verdict for that rule, never a crash
             ctx.unknown("R03.2", sub.__name__.strip("_"), str(e))
     _ring(ctx, P, fi)
